@@ -53,7 +53,9 @@ func (pv *ResponseBatchItem) TagEncodeTTLV(e *ttlv.Encoder, tag int) {
 			e.ByteString(TagUniqueBatchItemID, pv.UniqueBatchItemID)
 		}
 		e.Any(pv.ResultStatus)
-		if pv.ResultStatus != ResultStatusSuccess || pv.ResultReason != 0 {
+		// The result reason is required for failed operations only: a pending or
+		// undone operation without reason must not gain a (zero) Result Reason.
+		if pv.ResultStatus == ResultStatusOperationFailed || pv.ResultReason != 0 {
 			e.Any(pv.ResultReason)
 		}
 		if pv.ResultMessage != "" {
